@@ -1,6 +1,6 @@
 BASELINE_OFF = ("cd /repo && GOFLAGS=-mod=mod go test -json -vet=off -count=1 -timeout 25m ./...")
 READY_FAMILIES = ["fam_coa", "fam_dhcp4", "fam_pppoesrv", "fam_antispoof", "fam_nat", "fam_pppfsm", "fam_qos", "fam_acct", "fam_rendezvous", "fam_keymaps", "fam_lifecycle", "fam_failover", "fam_hasync", "fam_wire"]  # lib/fam_<x>.py modules reviewed and merged by the lead
-HOOK_COMMITS = ['ecb5b03', '8991ea8', '2f8f1f3', '915296f', 'f99dda1', '0dd83b8', '1ac4628', '869d11b', '42e8bdf', '68e6714', '4b933dc', '999940d', 'a9a2de3', '6fbafd9']
+HOOK_COMMITS = ['ecb5b03', '8991ea8', '2f8f1f3', '915296f', 'f99dda1', '0dd83b8', '1ac4628', '869d11b', '42e8bdf', '68e6714', '4b933dc', '999940d', 'a9a2de3', '6fbafd9', '42e8d17']
 NOTES = ("Every check: bin/check <id> --tier quick|thorough [--replay file]. Exit 0 held (KNOWN-FINDING lines for listed findings), "
          "1 new violation (VIOLATION line), 2 infrastructure failure (never a verdict). Specifications under specs/, conformance harness under harness/ "
          "(Go test binaries built against /repo's working tree with -tags verif), driver under lib/. See DESIGN.md.")
